@@ -434,7 +434,7 @@ func (f *frame) havocCall(callee *ssa.Function, sig *types.Signature, argVals []
 	// closures passed as arguments may be invoked: their effects are included
 	for _, a := range argVals {
 		if mc, ok := f.closures[a]; ok && mods != nil && !mods["*"] {
-			cm := vc.P.modSet(mc.Fn.(*ssa.Function))
+			cm := wholeMods(vc.P.modSet(mc.Fn.(*ssa.Function)))
 			nm := map[string]bool{}
 			for k := range mods {
 				nm[k] = true
@@ -464,7 +464,7 @@ func (f *frame) havocCall(callee *ssa.Function, sig *types.Signature, argVals []
 					for k := range mods {
 						nm[k] = true
 					}
-					for k := range vc.P.modSet(av.(*ssa.Function)) {
+					for k := range wholeMods(vc.P.modSet(av.(*ssa.Function))) {
 						nm[k] = true
 					}
 					mods = nm
@@ -475,7 +475,7 @@ func (f *frame) havocCall(callee *ssa.Function, sig *types.Signature, argVals []
 					for k := range mods {
 						nm[k] = true
 					}
-					for k := range vc.P.modSet(mc2.Fn.(*ssa.Function)) {
+					for k := range wholeMods(vc.P.modSet(mc2.Fn.(*ssa.Function))) {
 						nm[k] = true
 					}
 					mods = nm
@@ -488,10 +488,7 @@ func (f *frame) havocCall(callee *ssa.Function, sig *types.Signature, argVals []
 	if mods == nil || mods["*"] {
 		f.st = vc.havocAll(f.st)
 	} else if len(mods) > 0 {
-		for k := range mods {
-			vc.noteWrite(k)
-		}
-		f.st = vc.havocSome(f.st, mods)
+		f.applyMods(mods, argVals)
 	}
 	n := sig.Results().Len()
 	rs := make([]Term, n)
@@ -499,6 +496,78 @@ func (f *frame) havocCall(callee *ssa.Function, sig *types.Signature, argVals []
 		rs[i] = f.freshOf("ret", sig.Results().At(i).Type())
 	}
 	return rs
+}
+
+// wholeMods drops the per-object refinement: "@k+off$heap" becomes "heap".
+func wholeMods(m map[string]bool) map[string]bool {
+	out := map[string]bool{}
+	for k := range m {
+		if strings.HasPrefix(k, "@") {
+			k = k[strings.Index(k, "$")+1:]
+		}
+		out[k] = true
+	}
+	normMods(out)
+	return out
+}
+
+// applyMods havocs the heaps of a write set; "@k+off$heap" entries change only at argument k's object.
+func (f *frame) applyMods(mods map[string]bool, argVals []ssa.Value) {
+	vc := f.vc
+	whole := map[string]bool{}
+	type point struct {
+		hn   string
+		addr Term
+	}
+	var points []point
+	for k := range mods {
+		if strings.HasPrefix(k, "@") {
+			i := strings.Index(k, "$")
+			var idx int
+			var off int64
+			hn := k[i+1:]
+			if _, err := fmt.Sscanf(k[:i], "@%d+%d", &idx, &off); err == nil && idx < len(argVals) && argVals != nil {
+				if _, ok := f.vals[argVals[idx]]; ok || isConstOrGlobal(argVals[idx]) {
+					points = append(points, point{hn, bvAdd(f.val(argVals[idx]), i64(off))})
+					continue
+				}
+			}
+			whole[hn] = true
+			continue
+		}
+		whole[k] = true
+	}
+	for k := range whole {
+		vc.noteWrite(k)
+	}
+	if len(whole) > 0 {
+		f.st = vc.havocSome(f.st, whole)
+	}
+	for _, pt := range points {
+		if whole[pt.hn] {
+			continue
+		}
+		sort, ok := vc.heapSorts[pt.hn]
+		if !ok {
+			// the heap has not been used in this function yet: its sort is unknown here, havoc it entirely
+			f.st = vc.havocSome(f.st, map[string]bool{pt.hn: true})
+			vc.noteWrite(pt.hn)
+			continue
+		}
+		es := string(sort)
+		elem := Sort(es[len("(Array (_ BitVec 64) ") : len(es)-1])
+		h := f.st.get(pt.hn, sort)
+		fr := vc.declareFresh(pt.hn+"!pt", elem)
+		f.st.set(pt.hn, vc.define(pt.hn, mkStore(h, pt.addr, fr)))
+	}
+}
+
+func isConstOrGlobal(v ssa.Value) bool {
+	switch v.(type) {
+	case *ssa.Const, *ssa.Global:
+		return true
+	}
+	return false
 }
 
 // ---------------------------------------------------------------------------
@@ -938,7 +1007,7 @@ func (f *frame) callConcrete(fn *ssa.Function, recv Term, c *ssa.CallCommon, pos
 	if !noInl && target.Synthetic != "" && target.Blocks != nil && f.canInline(target) {
 		return f.inlineTerms(target, args, pos)
 	}
-	mods := vc.P.modSet(target)
+	mods := wholeMods(vc.P.modSet(target))
 	f.taintEvents([]*ssa.Function{target}, nil)
 	if mods["*"] {
 		f.st = vc.havocAll(f.st)
@@ -971,7 +1040,7 @@ func (f *frame) havocInvoke(c *ssa.CallCommon, sig *types.Signature) []Term {
 	var fns []*ssa.Function
 	for _, im := range impls {
 		fns = append(fns, im.fn)
-		for k := range vc.P.modSet(im.fn) {
+		for k := range wholeMods(vc.P.modSet(im.fn)) {
 			mods[k] = true
 		}
 	}
@@ -1044,7 +1113,7 @@ func (P *Program) eventNames(fn *ssa.Function) map[string]bool {
 				case *ssa.MakeClosure:
 					visit(x.Fn.(*ssa.Function))
 				case *ssa.Go:
-					out["*"] = true
+					// events of other goroutines are not part of this function's sequential trace
 				}
 				var c *ssa.CallCommon
 				switch x := in.(type) {
